@@ -6,6 +6,7 @@ import TLX.OutBytes
 import TLX.Lemmas.OnesComplement
 import TLX.Lemmas.Container
 import TLX.Spec.FrameParse
+import TLX.Spec.PcapngWalk
 namespace TLX.Lemmas.OutBytes
 open TLX TLX.OutBytes TLX.Checksum TLX.Spec.Rfc1071 TLX.Lemmas.OnesComplement
 
@@ -619,6 +620,285 @@ theorem parse_frameBytes (f : Frame) (hwf : f.WF) (hfit : Fits f) : parse (frame
     simp only [show (0x86 : UInt8).toNat * 256 + (0xDD : UInt8).toNat = 0x86DD from rfl,
       show ¬ (0x86DD = 0x0800) by decide, if_false, if_true, hip, hl4]
     simp [expected, hv]
+
+end
+
+section
+open TLX.Spec.Containers TLX.Lemmas.Container
+open TLX.Container (Endian)
+
+/-! ### the dpkt writer produces the draft's encoding -/
+
+/-- the choices `dpkt.pcapng.Writer(file, snaplen=20000)` makes among the variants of the pcapng draft: little
+    endian, version 1.0, section length unspecified, no options anywhere, one Ethernet interface with snaplen
+    20000 and the default microsecond clock, one EPB per packet on interface 0 with original length = captured length -/
+def dpktVariant : NgVariant := { hdr := { e := .le, snaplen := 20000, idbEoo := false } }
+
+/-- the event a written packet is -/
+def evOf (p : Bytes × Nat) : Ev := .pkt p.2 p.1
+
+/-- a packet `writepkt` can write: block length and time stamp fit their 32-bit fields -/
+def PktFits (p : Bytes × Nat) : Prop := 32 + OutBytes.align4 p.1.length < 4294967296 ∧ p.2 / 4294967296 < 4294967296
+
+instance (p : Bytes × Nat) : Decidable (PktFits p) := by unfold PktFits; infer_instance
+
+theorem leN_eq (w n : Nat) : leN w n = leBytes w n := by
+  induction w generalizing n with
+  | zero => rfl
+  | succ w ih => simp [leN, leBytes, ih]
+
+theorem align4_eq' (n : Nat) : OutBytes.align4 n = Container.align4 n := rfl
+
+theorem pad_eq (b : Bytes) : b ++ List.replicate (OutBytes.align4 b.length - b.length) 0 = padded b := by
+  unfold padded padding
+  rw [align4_eq', align4_eq]
+  congr 2
+  omega
+
+theorem shb_eq : shb = dpktVariant.hdr.shb.encode .le := by decide +kernel
+theorem idb_eq : idb 20000 = dpktVariant.hdr.idb.encode .le := by decide +kernel
+
+theorem epb_eq (p : Bytes × Nat) (h : PktFits p) :
+    epb p.1 p.2 = .ok ((Ev.block {} (evOf p)).encode .le) := by
+  unfold epb
+  dsimp only
+  have h' : 32 + OutBytes.align4 p.1.length < 4294967296 ∧ p.2 / 4294967296 < 4294967296 := h
+  rw [if_pos h']
+  have hlen : (u32 .le 0 ++ (u32 .le (p.2 / 2 ^ 32) ++ (u32 .le (p.2 % 2 ^ 32) ++ (u32 .le p.1.length ++
+      (u32 .le (p.1.length + 0) ++ (padded p.1 ++ encOpts .le {})))))).length % 4 = 0 := by
+    simp only [List.length_append, u32, enc, leBytes_length, padded_length, encOpts_length]
+    have := align4_mod p.1.length
+    simp [Opts.encLen, optListLen]
+    omega
+  simp only [evOf, Ev.block, Bool.false_eq_true, if_false, Block.encode, encBlock]
+  rw [padded_of_mod _ hlen]
+  simp only [List.length_append, u32, enc, leBytes_length, padded_length, encOpts_length]
+  simp only [leN_eq, align4_eq', encOpts, encOptList, Bool.false_eq_true, if_false, List.append_nil,
+    Nat.add_zero, List.append_assoc, Opts.encLen, optListLen]
+  have e1 : (2 : Nat) ^ 32 = 4294967296 := by decide
+  have e2 : 12 + (4 + (4 + (4 + (4 + (4 + Container.align4 p.1.length))))) = 32 + Container.align4 p.1.length := by omega
+  rw [e1, e2, ← pad_eq, align4_eq']
+  simp only [List.append_assoc]
+
+theorem epb_err (p : Bytes × Nat) (h : ¬ PktFits p) : epb p.1 p.2 = .error .struct := by
+  unfold epb
+  dsimp only
+  have h' : ¬ (32 + OutBytes.align4 p.1.length < 4294967296 ∧ p.2 / 4294967296 < 4294967296) := h
+  rw [if_neg h']
+
+theorem weave_default (i : Nat) (evs : List Ev) : weave (fun _ => {}) i evs = evs.map (Ev.block {}) := by
+  induction evs generalizing i with
+  | nil => rfl
+  | cons ev evs ih => simp [weave, ih]
+
+theorem epbs_eq (pkts : List (Bytes × Nat)) (h : ∀ p ∈ pkts, PktFits p) :
+    epbs pkts = .ok (encBlocks .le ((pkts.map evOf).map (Ev.block {}))) := by
+  induction pkts with
+  | nil => rfl
+  | cons p ps ih =>
+    obtain ⟨b, us⟩ := p
+    have h1 := epb_eq (b, us) (h _ (by simp))
+    have h2 := ih (fun q hq => h q (by simp [hq]))
+    simp only at h1
+    simp only [epbs, h1, h2, List.map_cons, encBlocks]
+
+theorem epbs_err (pkts : List (Bytes × Nat)) (h : ¬ ∀ p ∈ pkts, PktFits p) : epbs pkts = .error .struct := by
+  induction pkts with
+  | nil => exact absurd (by simp) h
+  | cons p ps ih =>
+    obtain ⟨b, us⟩ := p
+    by_cases h1 : PktFits (b, us)
+    · have h2 : ¬ ∀ q ∈ ps, PktFits q := fun hq => h (by
+        intro q hq'
+        simp only [List.mem_cons] at hq'
+        rcases hq' with rfl | hq'
+        · exact h1
+        · exact hq q hq')
+      have e1 := epb_eq (b, us) h1
+      simp only at e1
+      simp only [epbs, e1, ih h2]
+    · have e1 := epb_err (b, us) h1
+      simp only at e1
+      simp only [epbs, e1]
+
+/-- the file the writer leaves behind IS the pcapng draft's encoding of the packets as events, in the writer's variant -/
+theorem pcapng_eq (pkts : List (Bytes × Nat)) (h : ∀ p ∈ pkts, PktFits p) :
+    pcapng pkts = .ok (encode (.pcapng dpktVariant) (pkts.map evOf)) := by
+  unfold pcapng
+  rw [epbs_eq pkts h]
+  simp only [encode, encodeNg, NgVariant.blocks, shb_eq, idb_eq]
+  simp [dpktVariant, encBlocks, weave_default]
+
+theorem pcapng_err (pkts : List (Bytes × Nat)) (h : ¬ ∀ p ∈ pkts, PktFits p) : pcapng pkts = .error .struct := by
+  unfold pcapng; rw [epbs_err pkts h]
+
+end
+
+section
+open TLX.Spec.Containers TLX.Lemmas.Container TLX.Spec.PcapngWalk
+open TLX.Container (Endian fld rdNat)
+
+/-! ### the block walk over encoded blocks -/
+
+theorem walk_block (fuel ty : Nat) (body R : Bytes) (ht : ty < 2 ^ 32) (hl : blkLen body < 2 ^ 32) :
+    walkFuel (fuel + 1) (encBlock .le ty body ++ R) =
+      (walkFuel fuel R).map fun bs => (ty, padded body) :: bs := by
+  have hlen := encBlock_length .le ty body
+  have hbl : 12 ≤ blkLen body ∧ blkLen body % 4 = 0 := by
+    unfold blkLen; have := align4_mod body.length; omega
+  have h1 : (encBlock .le ty body ++ R).isEmpty = false := by
+    cases hq : encBlock Endian.le ty body ++ R with
+    | nil => have := congrArg List.length hq; simp [hlen] at this; omega
+    | cons _ _ => rfl
+  have h2 : ¬ (encBlock .le ty body ++ R).length < 12 := by simp only [List.length_append, hlen]; omega
+  have h3 := encBlock_ty .le ty body R ht
+  have h4 := encBlock_len .le ty body R hl
+  have h5 : ¬ (blkLen body < 12 ∨ blkLen body % 4 ≠ 0 ∨ (encBlock .le ty body ++ R).length < blkLen body) := by
+    simp only [List.length_append, hlen]; omega
+  have h6 : fld .le (encBlock .le ty body ++ R) (blkLen body - 4) 4 = blkLen body := by
+    rw [fld_prefix _ _ _ _ _ (by rw [hlen]; omega), fld_eq]
+    have := encBlock_trailer .le ty body
+    rw [hlen] at this
+    rw [this, List.take_of_length_le (by simp)]
+    exact rd_u32 _ _ hl
+  have h7 : (encBlock .le ty body ++ R).drop (blkLen body) = R := by
+    rw [← hlen]; exact List.drop_left
+  have h8 : (encBlock .le ty body ++ R).slice 8 (blkLen body - 4) = padded body := by
+    unfold Bytes.slice
+    rw [List.drop_append_of_le_length (by rw [hlen]; omega), encBlock_drop8, List.append_assoc,
+      List.take_left' (by rw [padded_length]; unfold blkLen; omega)]
+  rw [walkFuel]
+  simp only [h1, Bool.false_eq_true, if_false, h2, h3, h4, h5, h6, h7, h8, ne_eq, not_true_eq_false]
+  cases walkFuel fuel R <;> rfl
+
+theorem walkFuel_blocks (bs : List Block) (h : ∀ b ∈ bs, b.WF) (fuel : Nat) (hf : bs.length ≤ fuel) :
+    walkFuel fuel (encBlocks .le bs) = some (bs.map fun b => (bTy b, padded (bBody .le b))) := by
+  induction bs generalizing fuel with
+  | nil => cases fuel <;> rfl
+  | cons b bs ih =>
+    obtain ⟨fuel, rfl⟩ : ∃ k, fuel = k + 1 := ⟨fuel - 1, by simp at hf; omega⟩
+    have hb := h b (by simp)
+    have ⟨hl, hty⟩ := wf_blkLen .le b hb
+    rw [encBlocks, encode_eq, walk_block fuel _ _ _ hty hl, ih (fun x hx => h x (by simp [hx])) fuel (by simp at hf; omega)]
+    rfl
+
+theorem walk_blocks (bs : List Block) (h : ∀ b ∈ bs, b.WF) :
+    walk (encBlocks .le bs) = some (bs.map fun b => (bTy b, padded (bBody .le b))) :=
+  walkFuel_blocks bs h _ (encBlocks_length_ge .le bs)
+
+end
+
+section
+open TLX.Spec.Containers TLX.Lemmas.Container TLX.Spec.PcapngWalk
+open TLX.Container (Endian fld rdNat)
+
+theorem epbBlock_wf (p : Bytes × Nat) (h : PktFits p) : (Ev.block {} (evOf p)).WF := by
+  obtain ⟨h1, h2⟩ := h
+  have := align4_ge p.1.length
+  rw [align4_eq'] at h1
+  simp only [evOf, Ev.block, Bool.false_eq_true, if_false, Block.WF, padded_length]
+  refine ⟨by decide, ?_, ?_, ?_, ?_⟩
+  · have : p.2 < 4294967296 * 4294967296 := by
+      have := Nat.div_add_mod p.2 4294967296
+      have := Nat.mod_lt p.2 (show 0 < 4294967296 by decide)
+      omega
+    have e : (2 : Nat) ^ 64 = 4294967296 * 4294967296 := by decide
+    rw [e]; exact this
+  · have e : (2 : Nat) ^ 32 = 4294967296 := by decide
+    rw [e]; omega
+  · intro x hx; cases hx
+  · have e : (2 : Nat) ^ 32 = 4294967296 := by decide
+    rw [e]; simp [Opts.encLen, optListLen]; omega
+
+theorem dpktVariant_wf (pkts : List (Bytes × Nat)) (h : ∀ p ∈ pkts, PktFits p) :
+    dpktVariant.WF (pkts.map evOf) := by
+  unfold NgVariant.WF
+  refine ⟨by decide +kernel, ?_, ?_, ?_, ?_, ?_⟩
+  · intro b hb; cases hb
+  · intro b hb; cases hb
+  · intro b hb; cases hb
+  · intro i b hb; cases hb
+  · intro b hb
+    rw [show dpktVariant.deco = fun _ => {} from rfl, weave_default] at hb
+    simp only [List.mem_map] at hb
+    obtain ⟨ev, ⟨p, hp, rfl⟩, rfl⟩ := hb
+    exact epbBlock_wf p (h p hp)
+
+/-! ### the write loop -/
+
+theorem fileBody_eq (fs : List Frame) (h : ∀ f ∈ fs, Fits f ∧ PktFits (frameBytes f, f.ts)) :
+    fileBody fs = epbs (fs.map fun f => (frameBytes f, f.ts)) := by
+  induction fs with
+  | nil => rfl
+  | cons f fs ih =>
+    have hf := h f (by simp)
+    rcases serialize_cases f with ⟨_, he⟩ | ⟨hn, _⟩
+    · have e1 := epb_eq (frameBytes f, f.ts) hf.2
+      simp only at e1
+      simp only [fileBody, he, List.map_cons, epbs, e1, ih (fun g hg => h g (by simp [hg]))]
+    · exact absurd hf.1 hn
+
+theorem fileBody_ok (fs : List Frame) (body : Bytes) (h : fileBody fs = .ok body) :
+    ∀ f ∈ fs, Fits f ∧ PktFits (frameBytes f, f.ts) := by
+  induction fs generalizing body with
+  | nil => intro f hf; cases hf
+  | cons f fs ih =>
+    rcases serialize_cases f with ⟨hfit, he⟩ | ⟨_, e, he⟩
+    · by_cases hp : PktFits (frameBytes f, f.ts)
+      · have e1 := epb_eq (frameBytes f, f.ts) hp
+        simp only at e1
+        simp only [fileBody, he, e1] at h
+        cases hr : fileBody fs with
+        | error er => rw [hr] at h; cases h
+        | ok r =>
+          intro g hg
+          simp only [List.mem_cons] at hg
+          rcases hg with rfl | hg
+          · exact ⟨hfit, hp⟩
+          · exact ih r hr g hg
+      · have e1 := epb_err (frameBytes f, f.ts) hp
+        simp only at e1
+        simp only [fileBody, he, e1] at h
+        cases h
+    · simp only [fileBody, he] at h
+      cases h
+
+theorem fileOfFrames_eq (fs : List Frame) (h : ∀ f ∈ fs, Fits f ∧ PktFits (frameBytes f, f.ts)) :
+    fileOfFrames fs = pcapng (fs.map fun f => (frameBytes f, f.ts)) := by
+  unfold fileOfFrames pcapng; rw [fileBody_eq fs h]
+
+theorem fileOfFrames_ok (fs : List Frame) (file : Bytes) (h : fileOfFrames fs = .ok file) :
+    ∀ f ∈ fs, Fits f ∧ PktFits (frameBytes f, f.ts) := by
+  unfold fileOfFrames at h
+  cases hb : fileBody fs with
+  | error e => rw [hb] at h; cases h
+  | ok body => exact fileBody_ok fs body hb
+
+theorem fileOfFrames_err (fs : List Frame) (h : ¬ ∀ f ∈ fs, Fits f ∧ PktFits (frameBytes f, f.ts)) :
+    ∃ e, fileOfFrames fs = .error e := by
+  cases hf : fileOfFrames fs with
+  | error e => exact ⟨e, rfl⟩
+  | ok file => exact absurd (fileOfFrames_ok fs file hf) h
+
+theorem frameBytes_length (f : Frame) (hwf : f.WF) :
+    (frameBytes f).length = 14 + (if f.ipv6 then 40 else 20) + l4Len f := by
+  unfold frameBytes ipBytes
+  have := segBytes_length f
+  have hs := hwf.src; have hd := hwf.dst
+  cases hv : f.ipv6 <;> rw [hv] at hs hd <;>
+    simp_all [ipv4Header, ipv6Header, ofNatBE_length, hwf.srcMac, hwf.dstMac] <;> omega
+
+/-- a frame scapy can serialise always fits an EPB; only the time stamp can be too large -/
+theorem pktFits_of_fits (f : Frame) (hwf : f.WF) (hfit : Fits f) (hts : f.ts < 2 ^ 64) : PktFits (frameBytes f, f.ts) := by
+  obtain ⟨_, _, _, hl⟩ := hfit
+  have hlen := frameBytes_length f hwf
+  have e : (2 : Nat) ^ 64 = 4294967296 * 4294967296 := by decide
+  rw [e] at hts
+  unfold PktFits OutBytes.align4
+  simp only
+  constructor
+  · split at hl <;> split <;> simp_all <;> omega
+  · exact Nat.div_lt_of_lt_mul hts
 
 end
 
